@@ -506,6 +506,48 @@ func runC07(c *Ctx) error {
 			c.count(tag, true, "ending=close-race")
 		}
 	}
+	// an OnClose handler that uses the connection: writes from inside it return (with the closed error) and the read loop
+	// returns - the library holds none of its locks while it runs the callback
+	for _, server := range []bool{true, false} {
+		var conn *gws.Conn
+		inner := &recHandler{}
+		var writeResults []int
+		h := &closeNotify{recHandler: inner, fn: func() {
+			for _, api := range []string{"message", "string", "writev", "ping", "file", "async"} {
+				op := sendOp{API: api, Opcode: 2, Slices: [][]byte{[]byte("from OnClose")}}
+				if api == "file" {
+					op.Reader = newChunkReader([][]byte{[]byte("from OnClose")}, "sep")
+				}
+				if api == "string" {
+					op.Opcode = 1
+				}
+				if api == "ping" {
+					op.Opcode = 9
+				}
+				writeResults = append(writeResults, rawSend(conn, op))
+			}
+		}}
+		var tap *memConn
+		var err error
+		conn, tap, err = connSpec{Server: server}.open(h)
+		if err != nil {
+			return err
+		}
+		tap.feed(dataFrame(1, true, server, []byte("hello")), dataFrame(8, true, server, []byte{0x03, 0xe8}))
+		tap.setEOF()
+		tag := fmt.Sprintf("writes from inside OnClose role=%s", roleName(server))
+		if !runWithTimeout(10*time.Second, conn.ReadLoop) {
+			c.oracleFail("a write call made from inside OnClose never returned: the read loop is stuck in its close callback ["+tag+"]", "readloop-hang", map[string]any{"tag": tag, "results": writeResults})
+		} else {
+			for i, r := range writeResults {
+				if r != 1 {
+					c.oracleFail(fmt.Sprintf("write call #%d made from inside OnClose returned %d, want the closed-connection error [%s]", i, r, tag), "write-after-close", map[string]any{"tag": tag, "results": writeResults})
+					break
+				}
+			}
+		}
+		c.count(tag, true, "ending=write-inside-onclose")
+	}
 	// a connection that is already closed when its read loop starts (the application wrote a greeting that failed, or
 	// closed it, between the upgrade and ReadLoop): the lifecycle is still OnOpen once and first, then OnClose once
 	for _, server := range []bool{true, false} {
